@@ -155,6 +155,17 @@ CHECKS.update({
     ),
 })
 
+CHECKS.update({
+    "C14": (
+        "statistical property-based testing with exact Binomial acceptance intervals (joint column histograms) + the documented depth bound on Zipf streams",
+        "Seed-derived Zipf streams must keep the number of keys beyond true+e*N/width within floor(K*exp(-depth)); for 20000 random keys the joint "
+        "histogram of the probe-derived columns of every row pair, for all count-min types and heavy hitters, must lie cell by cell inside exact Binomial "
+        "intervals at level 1e-14 per test.",
+        "Keys are i.i.d. random byte strings; false-alarm budget < 1e-9 per run.",
+        "7/C14",
+    ),
+})
+
 NOT_YET = {}
 
 
